@@ -73,3 +73,30 @@ Theorem accepted_close : forall m e E l u v,
 Proof.
   intros m e E l u v Hj Hc Hv. apply (inside_bound E l u); [exact Hc|apply judge_sound; exact Hj|exact Hv].
 Qed.
+
+(* ------------------------------------------------------------------ offsets of the reported log-Jacobian *)
+Theorem offs_sound : forall m e E D v,
+  offs (Some (m, e)) E = Some D -> enclR E v -> enclR D (dyR (m, e) - v).
+Proof.
+  intros m e E D v H Hv. unfold offs in H. destruct (I.bounded E); [|discriminate].
+  injection H as <-. unfold enclR, encl.
+  apply (I.sub_correct prec (pointI prec m e) E (Xreal (dyR (m, e))) (Xreal v)); [|exact Hv].
+  exact (ptI_sound (m, e)).
+Qed.
+
+(* a separated pair: the two true offsets differ, so "reported - true" is not one constant *)
+Theorem separated_sound : forall Dj Dk dj dk,
+  separated Dj Dk = true -> enclR Dj dj -> enclR Dk dk -> dj < dk.
+Proof.
+  intros Dj Dk dj dk H Hj Hk. unfold separated in H.
+  apply I.F'.lt'_correct in H.
+  assert (Nj : not_empty (I.convert Dj)) by (exists dj; exact Hj).
+  assert (Nk : not_empty (I.convert Dk)) by (exists dk; exact Hk).
+  rewrite (I.upper_correct Dj Nj), (I.lower_correct Dk Nk) in H.
+  unfold enclR, encl in Hj, Hk.
+  destruct (I.convert Dj) as [|lj uj]; cbn in H; [destruct H|].
+  destruct uj as [|uj]; [destruct H|].
+  destruct (I.convert Dk) as [|lk uk]; cbn in H; [destruct H|].
+  destruct lk as [|lk]; [destruct H|].
+  cbn in Hj, Hk. destruct Hj as [_ Hj]. destruct Hk as [Hk _]. lra.
+Qed.
